@@ -35,9 +35,21 @@ Proof.
   apply vtrunc_small; [lia|]. destruct (val n =? 1); cbn; lia.
 Qed.
 
+(* comparison of an unsigned net with the literal 0 *)
+Lemma ne_zero n : okn env n -> rself env (RBin BNe (rid n) (RNum 0)) = b2z (negb (val n =? 0)).
+Proof.
+  intros [Hw Hv]. unfold rself. cbn [rsize rsigned arith_op shift_op reval rid andb].
+  set (cw := Z.max (snd n) 32). assert (Hc : snd n <= cw /\ 32 <= cw) by lia.
+  cbn [extend].
+  assert (Hv' : 0 <= getv env (fst n) < 2 ^ cw) by (eapply small_in_wider; [|exact Hv]; lia).
+  assert (H0 : 0 <= 0 < 2 ^ cw) by (split; [lia | apply pow2_pos; lia]).
+  rewrite (vtrunc_small cw (getv env (fst n))) by lia.
+  rewrite (vtrunc_small 32 0) by lia. rewrite (vtrunc_small cw 0) by lia.
+  apply vtrunc_small; [lia|]. destruct (val n =? 0); cbn; lia.
+Qed.
+
 Theorem body_reg_sound rq d e r rv st :
   (fst rq < length env)%nat -> okn env rq -> okn env d -> opt_ok e -> opt_ok r ->
-  (match e with Some e' => snd e' = 1 | None => True end) ->
   - 2 ^ 31 < rv < 2 ^ 31 ->
   let '(env1, q) := exec (body_reg_proc rq d e r rv) (env, []) in
   let '(st', qsim) := Reg_clock (snd rq) (is_some e) (is_some r) rv st (val d) (opt_val e) (opt_val r) in
@@ -48,7 +60,7 @@ Theorem body_reg_sound rq d e r rv st :
   (* and the simulator's q output in the hold case re-prepares the unchanged stored value *)
   qsim = trunc (snd rq) (Reg_s_value st').
 Proof.
-  intros Hi Hq Hd He Hr He1 Hrv.
+  intros Hi Hq Hd He Hr Hrv.
   assert (Hload : forall l, l = whole rq ->
             getv (apply_nbas env [((fst rq, 0, snd rq), assign_value env l (rid d))]) (fst rq) = trunc (snd rq) (val d)).
   { intros l ->. cbn [apply_nbas fold_left fst snd]. destruct Hq as [Hwq Hvq]. rewrite write_whole by auto.
@@ -69,9 +81,8 @@ Proof.
   - rewrite eq_one by exact Hr. destruct (Z.eqb_spec (val r') 1) as [H1|H1]; cbn [b2z Z.eqb exec fst snd ltarget whole].
     + split; [reflexivity|]. rewrite app_nil_l. unfold py_truth; cbn [Z.eqb negb]. rewrite Wire_prepare_is_trunc.
       split; [exact Hrst | reflexivity].
-    + rewrite eq_one by exact He. destruct He as [_ Hve]. rewrite He1 in Hve. change (2 ^ 1) with 2 in Hve.
-      assert (Hc : val e' = 0 \/ val e' = 1) by lia. unfold py_truth. rewrite Wire_prepare_is_trunc.
-      destruct Hc as [-> | ->]; cbn [Z.eqb b2z negb exec fst snd ltarget whole apply_nbas fold_left app].
+    + rewrite ne_zero by exact He. unfold py_truth. rewrite Wire_prepare_is_trunc.
+      destruct (Z.eqb_spec (val e') 0) as [E0|Hne]; cbn [Z.eqb b2z negb exec fst snd ltarget whole apply_nbas fold_left app].
       * split; [reflexivity|]. split; reflexivity.
       * split; [reflexivity|]. split; [apply Hload; reflexivity | reflexivity].
   - rewrite eq_one by exact Hr. destruct (Z.eqb_spec (val r') 1) as [H1|H1]; cbn [b2z Z.eqb exec fst snd ltarget whole].
@@ -79,9 +90,8 @@ Proof.
       split; [exact Hrst | reflexivity].
     + split; [reflexivity|]. rewrite app_nil_l. unfold py_truth; cbn [Z.eqb negb]. rewrite Wire_prepare_is_trunc.
       split; [apply Hload; reflexivity | reflexivity].
-  - rewrite eq_one by exact He. destruct He as [_ Hve]. rewrite He1 in Hve. change (2 ^ 1) with 2 in Hve.
-    assert (Hc : val e' = 0 \/ val e' = 1) by lia. unfold py_truth. rewrite Wire_prepare_is_trunc.
-    destruct Hc as [-> | ->]; cbn [Z.eqb b2z negb exec fst snd ltarget whole apply_nbas fold_left app].
+  - rewrite ne_zero by exact He. unfold py_truth. rewrite Wire_prepare_is_trunc.
+    destruct (Z.eqb_spec (val e') 0) as [E0|Hne]; cbn [Z.eqb b2z negb exec fst snd ltarget whole apply_nbas fold_left app].
     * split; [reflexivity|]. split; reflexivity.
     * split; [reflexivity|]. split; [apply Hload; reflexivity | reflexivity].
   - split; [reflexivity|]. rewrite app_nil_l. unfold py_truth; cbn [Z.eqb negb]. rewrite Wire_prepare_is_trunc.
@@ -92,14 +102,14 @@ End Reg.
 (* ---------------- whole histories: a 4-net environment [rq; d; e; r] driven by arbitrary input sequences *)
 Definition opt_nid (present : bool) (i : nat) (w : Z) : option nid := if present then Some (i, w) else None.
 
-Definition vreg_next (w wd wr : Z) (has_e has_r : bool) (rv : Z) (rqv : Z) (inp : Z * Z * Z) : Z :=
+Definition vreg_next (w wd we wr : Z) (has_e has_r : bool) (rv : Z) (rqv : Z) (inp : Z * Z * Z) : Z :=
   let '(d, e, r) := inp in
   let env := [rqv; d; e; r] in
-  let '(env1, q) := exec (body_reg_proc (0%nat, w) (1%nat, wd) (opt_nid has_e 2 1) (opt_nid has_r 3 wr) rv) (env, []) in
+  let '(env1, q) := exec (body_reg_proc (0%nat, w) (1%nat, wd) (opt_nid has_e 2 we) (opt_nid has_r 3 wr) rv) (env, []) in
   getv (apply_nbas env1 q) 0.
 
-Fixpoint vreg_traj w wd wr has_e has_r rv (rqv : Z) (ins : list (Z * Z * Z)) : list Z :=
-  match ins with [] => [] | i :: t => let n := vreg_next w wd wr has_e has_r rv rqv i in n :: vreg_traj w wd wr has_e has_r rv n t end.
+Fixpoint vreg_traj w wd we wr has_e has_r rv (rqv : Z) (ins : list (Z * Z * Z)) : list Z :=
+  match ins with [] => [] | i :: t => let n := vreg_next w wd we wr has_e has_r rv rqv i in n :: vreg_traj w wd we wr has_e has_r rv n t end.
 
 Fixpoint sreg_traj w (has_e has_r : bool) rv (st : Reg_state) (ins : list (Z * Z * Z)) : list Z :=
   match ins with
@@ -108,30 +118,29 @@ Fixpoint sreg_traj w (has_e has_r : bool) rv (st : Reg_state) (ins : list (Z * Z
                       q :: sreg_traj w has_e has_r rv st' t
   end.
 
-Definition in_ok (wd wr : Z) (i : Z * Z * Z) : Prop :=
-  let '(d, e, r) := i in 0 <= d < 2 ^ wd /\ 0 <= e < 2 /\ 0 <= r < 2 ^ wr.
+Definition in_ok (wd we wr : Z) (i : Z * Z * Z) : Prop :=
+  let '(d, e, r) := i in 0 <= d < 2 ^ wd /\ 0 <= e < 2 ^ we /\ 0 <= r < 2 ^ wr.
 
-Theorem reg_history w wd wr has_e has_r rv ins st rqv :
-  0 < w -> 0 < wd -> 0 < wr -> - 2 ^ 31 < rv < 2 ^ 31 -> Forall (in_ok wd wr) ins ->
+Theorem reg_history w wd we wr has_e has_r rv ins st rqv :
+  0 < w -> 0 < wd -> 0 < we -> 0 < wr -> - 2 ^ 31 < rv < 2 ^ 31 -> Forall (in_ok wd we wr) ins ->
   rqv = trunc w (Reg_s_value st) ->
-  vreg_traj w wd wr has_e has_r rv rqv ins = sreg_traj w has_e has_r rv st ins.
+  vreg_traj w wd we wr has_e has_r rv rqv ins = sreg_traj w has_e has_r rv st ins.
 Proof.
-  intros Hw Hwd Hwr Hrv Hins. revert st rqv. induction Hins as [|[[d e] r] ins Hi Hins IH]; intros st rqv Hinv; [reflexivity|].
+  intros Hw Hwd Hwe Hwr Hrv Hins. revert st rqv. induction Hins as [|[[d e] r] ins Hi Hins IH]; intros st rqv Hinv; [reflexivity|].
   cbn [vreg_traj sreg_traj]. destruct Hi as (Hd & He & Hr).
   assert (Hrq : 0 <= rqv < 2 ^ w) by (subst rqv; apply trunc_range; lia).
-  pose proof (body_reg_sound [rqv; d; e; r] (0%nat, w) (1%nat, wd) (opt_nid has_e 2 1) (opt_nid has_r 3 wr) rv st) as B.
+  pose proof (body_reg_sound [rqv; d; e; r] (0%nat, w) (1%nat, wd) (opt_nid has_e 2 we) (opt_nid has_r 3 wr) rv st) as B.
   cbn [fst snd length] in B.
-  assert (Hoe : opt_ok [rqv; d; e; r] (opt_nid has_e 2 1)).
-  { destruct has_e; cbn; auto. unfold okn; cbn. change (2 ^ 1) with 2. lia. }
+  assert (Hoe : opt_ok [rqv; d; e; r] (opt_nid has_e 2 we)).
+  { destruct has_e; cbn; auto. unfold okn; cbn. lia. }
   assert (Hor : opt_ok [rqv; d; e; r] (opt_nid has_r 3 wr)).
   { destruct has_r; cbn; auto. unfold okn; cbn. lia. }
-  specialize (B ltac:(lia) ltac:(unfold okn; cbn; lia) ltac:(unfold okn; cbn; lia) Hoe Hor
-                ltac:(destruct has_e; cbn; auto) Hrv).
+  specialize (B ltac:(lia) ltac:(unfold okn; cbn; lia) ltac:(unfold okn; cbn; lia) Hoe Hor Hrv).
   unfold vreg_next.
   destruct (exec _ _) as [env1 q] eqn:Ex.
-  replace (is_some (opt_nid has_e 2 1)) with has_e in B by (destruct has_e; reflexivity).
+  replace (is_some (opt_nid has_e 2 we)) with has_e in B by (destruct has_e; reflexivity).
   replace (is_some (opt_nid has_r 3 wr)) with has_r in B by (destruct has_r; reflexivity).
-  replace (opt_val [rqv; d; e; r] (opt_nid has_e 2 1)) with (if has_e then e else 0) in B by (destruct has_e; reflexivity).
+  replace (opt_val [rqv; d; e; r] (opt_nid has_e 2 we)) with (if has_e then e else 0) in B by (destruct has_e; reflexivity).
   replace (opt_val [rqv; d; e; r] (opt_nid has_r 3 wr)) with (if has_r then r else 0) in B by (destruct has_r; reflexivity).
   change (getv [rqv; d; e; r] 1) with d in B. change (getv [rqv; d; e; r] 0) with rqv in B.
   destruct (Reg_clock w has_e has_r rv st d _ _) as [st' qsim] eqn:Ec.
